@@ -169,14 +169,26 @@ def _mdp_case(case, rng):
         seq = [rng.choice([-2.0, 0.0, 1.0, 3.5]) for _ in range(rng.randint(1, 12))]
         g2 = rng.choice([0.3, 0.9, 1.0, 0.0])
     # the same numbers as Python ints, a tuple, numpy integer / float arrays, bools
-    irep = rng.choice(["float_list", "int_list", "int_tuple", "np_int", "np_float", "bool_list"])
-    if irep != "float_list":
+    irep = rng.choice(["float_list", "int_list", "int_tuple", "np_int", "np_float", "bool_list", "0d_arrays"])
+    shared_objs = None
+    if irep == "0d_arrays":
+        # rewards handed out as 0-d numpy arrays, the SAME stored object wherever the same reward occurs (a model that keeps
+        # its step cost in an array): the caller's objects must come back untouched
+        vals_ = {v_: np.asarray(float(v_)) for v_ in (-2, 0, 1, 3, 10)}
+        base = [int(rng.choice([-2, 0, 1, 3, 10])) for _ in range(min(len(seq), 12))]
+        shared_objs = vals_
+        seq = [vals_[b_] for b_ in base]
+    elif irep != "float_list":
         base = [int(rng.choice([-2, 0, 1, 3, 10])) for _ in range(len(seq) if len(seq) <= 12 else 12)]
         if irep == "bool_list":
             base = [bool(x % 2) for x in base]
         seq = {"int_list": base, "int_tuple": tuple(base), "np_int": np.array(base, dtype=np.int64),
                "np_float": np.array(base, dtype=float), "bool_list": base}[irep]
     got = case.call("calc_returns", Policy.calc_returns, seq, g2, facts=dict(sequence_type=irep))
+    if shared_objs is not None:
+        case.check(all(float(o_) == float(k_) for k_, o_ in shared_objs.items()), "calc_returns-changed-the-caller's-reward-objects",
+                   lambda: f"{ {k_: float(o_) for k_, o_ in shared_objs.items()}!r}", sequence_type=irep)
+        seq = [float(b_) for b_ in base]
     seq = [float(x) for x in seq]
     case.count("calc_returns_checked")
     if got is not case.FAIL:
